@@ -234,3 +234,12 @@ def digit(c, k):
 def is_pow2_int(d):
     """d > 0 is a power of two"""
     return d > 0 and d == pow2(bl(d) - 1) if d > 0 else False
+
+
+# ---------------------------------------------------------------------------
+# normalisation
+
+def fits_p(x, p):
+    """|x| = c 2^exp can be written with a significand of at most p digits: c without trailing zeros has <= p digits"""
+    over = bl(x._c) - p
+    return True if over <= 0 else fmod(x._c, pow2(over)) == 0
